@@ -125,6 +125,9 @@ def gen_actions(rng):
             hcfg['boom_type'] = 'typeerror'
     if rng.random() < 0.15:
         hcfg['legacy_disconnect'] = True
+    if rng.random() < 0.3:
+        # another spelling of the (case-insensitive) handshake headers
+        hcfg['upgrade_spelling'] = rng.choice([1, 2])
     return acts, script, hcfg
 
 
@@ -134,6 +137,7 @@ class Side:
             'ping_interval': PI, 'ping_timeout': PT,
             'max_http_buffer_size': 2000},
             handler_cfg=dict(hcfg or {}, connect=script), policy='fifo')
+        self.sim.upgrade_spelling = (hcfg or {}).get('upgrade_spelling', 0)
         self.R = hist.Runner(self.sim)
         self.ev_seen = 0
         self.dl_seen = 0
